@@ -7,7 +7,7 @@ hand-written overrides that take part in those traversals.  Every other cycle in
 something else (a graph, a retry) and needs an argument; none exists today.  The rule computes the strongly connected
 components of the resolved call graph over product functions and reports every cycle that is not one of the families."""
 import re
-from vlib.mir import norm, loc_macro, loc_str
+from vlib.mir import norm, loc_macro, loc_str, op_place
 from vlib import facts as F
 
 
@@ -243,3 +243,82 @@ def run_threads(ctx, rep, rid="R-C04-threads"):
     if not found:
         r.ok("product code|no thread is spawned", None, "%d calls scanned" % n)
     r.count_override = n
+
+
+PRODUCT_CRATES = ("ironplc_dsl", "ironplc_parser", "ironplc_analyzer", "ironplc_plc2plc", "ironplcc", "ironplc_problems")
+
+
+def run_fmtself(ctx, rep, rid="R-C04-fmtself"):
+    """`write!(f, "{}", self)` inside `impl Display for T` calls the very function it is in (through the formatting machinery, so the
+    call graph does not show it): unbounded recursion, stack overflow.  For every Display/Debug impl of a workspace type, the rule finds
+    formatting arguments of the impl's own type that alias `self` (not a field or child of it) and use the impl's own trait - or a
+    trait whose impl for the same type formats `self` back with the first one."""
+    from vlib.mir import rvalue_operands
+    r = rep.rule(rid, "no Display/Debug implementation formats `self` with itself (directly, or through the other of the two implementations and back)",
+                 floor=10, floor_what="hand-written fmt implementations")
+    KIND = {"core::fmt::Display": "new_display", "core::fmt::Debug": "new_debug"}
+    edges = {}      # (type, trait) -> set of (type, trait) reached with self
+    sites = {}
+    n = 0
+    for b in sorted(ctx.prog.bodies.values(), key=lambda x: x.id):
+        im = b.f.get("impl") or {}
+        if b.f["name"] != "fmt" or im.get("trait_def") not in KIND or b.f["crate"] not in PRODUCT_CRATES:
+            continue
+        if any((loc_macro(st[3]) or ("",))[0].startswith("Derive:") for _, _, st in list(b.all_stmts())[:3] if len(st) > 3):
+            continue
+        T = re.sub(r"<.*", "", im.get("self") or "")
+        n += 1
+        # locals that are (references to) self
+        alias = {1}
+        tup = {}
+        grew = True
+        while grew:
+            grew = False
+            for i, j, st in b.all_stmts():
+                if st[0] != "=" or st[1][1]:
+                    continue
+                d, rv = st[1][0], st[2]
+                src = None
+                if rv[0] == "ref":
+                    src = rv[2]
+                elif rv[0] == "use":
+                    src = op_place(rv[1])
+                elif rv[0] == "agg" and rv[1].get("k") == "tuple":
+                    for k, o in enumerate(rv[2]):
+                        p = op_place(o)
+                        if p is not None and p[0] in alias and all(x == "*" for x in p[1]) and (d, k) not in tup:
+                            tup[(d, k)] = True
+                            grew = True
+                    continue
+                if src is None or d in alias:
+                    continue
+                fs = [x for x in src[1] if isinstance(x, list) and x[0] == "f"]
+                if src[0] in alias and not fs:
+                    alias.add(d)
+                    grew = True
+                elif len(fs) == 1 and fs[0][3] == "(tuple)" and (src[0], int(fs[0][2])) in tup:
+                    alias.add(d)
+                    grew = True
+        for c in b.calls():
+            m = (c.callee or "").split("::")[-1]
+            if not (c.callee or "").startswith("core::fmt::rt::Argument") or m not in ("new_display", "new_debug"):
+                continue
+            ga = re.sub(r"'\{erased\},?\s*|&'\{erased\}\s*|&", "", (c.ga or "").strip("[]")).strip().strip(",").strip()
+            ga = re.sub(r"<.*", "", ga)
+            ap = op_place(c.args[0]) if c.args else None
+            if ga == T and ap is not None and ap[0] in alias:
+                tr = "core::fmt::Display" if m == "new_display" else "core::fmt::Debug"
+                edges.setdefault((T, im["trait_def"]), set()).add((T, tr))
+                sites[((T, im["trait_def"]), (T, tr))] = (b, c)
+    bad = set()
+    for a, outs in edges.items():
+        for o in outs:
+            if o == a or a in edges.get(o, set()):
+                bad.add((a, o))
+    for (a, o) in sorted(bad):
+        b, c = sites[(a, o)]
+        r.finding("%s as %s|formats self with %s" % (a[0].split("::")[-1], a[1].split("::")[-1], o[1].split("::")[-1]), loc_str(b.f, c.loc),
+                  "`%s for %s` formats `self` with `{%s}`, which is %s: the call never returns and the stack overflows as soon as a value of this type is formatted" % (
+                      a[1].split("::")[-1], a[0].split("::")[-1], "" if o[1].endswith("Display") else ":?", "this very function" if a == o else "an implementation that formats self back with this one"))
+    r.count_override = max(n, 1)
+    r.note("%d hand-written Display/Debug implementations examined" % n)
